@@ -221,7 +221,8 @@ def build2(m):
         ensures=['CURSOR_OK(lines)', 'not is_none(result)', 'old(lines._index) < lines._index',
                  # C05 mechanism 1: a paragraph never consumes a blank line
                  NONBLANK],
-        modifies=['lines._index', 'G:SCRATCH', 'G:INLINE_PHASE'],
+        # C07 phase separation: a reader may not run the inline phase (INLINE_PHASE is not in its frame)
+        modifies=['lines._index', 'G:SCRATCH'],
         allow_exc=['CustomTokenError'],
         ensures_exc=['CURSOR_OK(lines)'],
         body_types={'next_line': TOpt(STR), 'line_buffer': TList(STR)},
